@@ -103,7 +103,7 @@ class contentsSet(GenericEquality):
         if fs.isfs_obj(obj):
             self._dict.pop(obj.location, None)
         else:
-            self._dict.pop(obj, None)
+            self._dict.pop(normpath(obj), None)
 
     def __getitem__(self, obj):
         if fs.isfs_obj(obj):
@@ -142,9 +142,17 @@ class contentsSet(GenericEquality):
                 raise ValueError(f"must be an fsBase derivative: got {x!r}")
             yield x
 
+    @staticmethod
+    def _locations(other):
+        """normalized locations named by another contents set, or by an
+        iterable of fs objs and/or path strings"""
+        if isinstance(other, contentsSet):
+            return other._dict.keys()
+        f = fs.isfs_obj
+        return {x.location if f(x) else normpath(x) for x in other}
+
     def difference(self, other):
-        if not hasattr(other, "__contains__"):
-            other = set(self._convert_loc(other))
+        other = self._locations(other)
         return contentsSet(
             (x for x in self if x.location not in other), mutable=self.mutable
         )
@@ -159,31 +167,32 @@ class contentsSet(GenericEquality):
                 rem(x)
 
     def intersection(self, other):
-        return contentsSet((x for x in other if x in self), mutable=self.mutable)
+        # entries come from other where it supplies them (callers rely on
+        # that); a path string selects our own entry
+        f = fs.isfs_obj
+        return contentsSet(
+            (x if f(x) else self[x] for x in other if x in self),
+            mutable=self.mutable,
+        )
 
     def intersection_update(self, other):
         if not self.mutable:
             raise TypeError(f"immutable type {self!r}")
-        if not hasattr(other, "__contains__"):
-            other = set(self._convert_loc(other))
+        other = self._locations(other)
 
         l = [x for x in self if x.location not in other]
         for x in l:
             self.remove(x)
 
     def issubset(self, other):
-        if not hasattr(other, "__contains__"):
-            other = set(self._convert_loc(other))
+        other = self._locations(other)
         return all(x in other for x in self._dict)
 
     def issuperset(self, other):
-        if not hasattr(other, "__contains__"):
-            other = set(self._convert_loc(other))
-        return all(x in self for x in other)
+        return all(x in self._dict for x in self._locations(other))
 
     def isdisjoint(self, other):
-        if not hasattr(other, "__contains__"):
-            other = set(self._convert_loc(other))
+        other = self._locations(other)
         return not any(x in other for x in self._dict)
 
     def union(self, other):
